@@ -127,12 +127,12 @@ Shapes(e) == IF e.op = "refop" THEN ShapeRefop(e) ELSE IF e.op = "done" THEN Sha
 
 Consume ==
     /\ l <= Len(Ev)
+    /\ UNCHANGED <<tid, ini, push, k, hist, emitted>>
     /\ LET e == Ev[l] IN
          /\ Apply(e)
          /\ shape' = shape \cup Shapes(e)
     /\ bad' = bad \cup {<<c[1], c[2], c[3], l>> : c \in {d \in Clauses : \A b \in bad : <<b[1], b[2], b[3]>> # d}}
     /\ l' = l + 1
-    /\ UNCHANGED <<tid, ini, push, k, hist, emitted>>
 
 Finish2 ==
     /\ l = Len(Ev) + 1
